@@ -365,3 +365,43 @@ Proof.
   - intros Hf. destruct D as [D|(D1 & _)]; congruence.
   - intros Hne. destruct D as [D|(D1 & D2 & _)]; [congruence|auto].
 Qed.
+
+(* ---- Express inserts, then emits ----
+   In the model one EExpress step inserts the entry into the PIT and emits the Interest (OSendInt); whatever the face does
+   with the packet — including handing the answer back before Send returns — is a later event, so it finds the entry.
+   (The harness stream "reply" runs this on the real engine with a face that answers during Send.) *)
+Theorem reply_during_send_matched : forall es nm cbp dig life dn dd,
+  is_nil nm && is_none dig = false ->
+  let s := final init es in
+  satisfies (mkSint (npid s) nm cbp dig (now s + lifetime life)%N) dn dd = true ->
+  obs_at (es ++ [EExpress nm cbp dig life; EData dn dd]) (length es) = [OSendInt (npid s)] /\
+  In (OCb (npid s) (RData dn dd)) (obs_at (es ++ [EExpress nm cbp dig life; EData dn dd]) (S (length es))).
+Proof.
+  intros es nm cbp dig life dn dd Hne s Hsat.
+  set (i := mkSint (npid s) nm cbp dig (now s + lifetime life)%N) in *.
+  set (es' := es ++ [EExpress nm cbp dig life; EData dn dd]).
+  destruct (model_accepted_rel es) as (sp0 & Hrun0 & R0). fold s in R0.
+  destruct (express_pinv s (sp_pending sp0) nm cbp dig life (r_pit _ _ R0) Hne) as (s1 & Hex & _).
+  assert (Hk0 : nth_error es' (length es) = Some (EExpress nm cbp dig life)).
+  { unfold es'. rewrite nth_error_app2 by lia. rewrite Nat.sub_diag. reflexivity. }
+  assert (Hk1 : nth_error es' (S (length es)) = Some (EData dn dd)).
+  { unfold es'. rewrite nth_error_app2 by lia. replace (S (length es) - length es) with 1 by lia. reflexivity. }
+  assert (Hf0 : firstn (length es) es' = es) by (unfold es'; rewrite firstn_app, Nat.sub_diag, firstn_all; simpl; apply app_nil_r).
+  assert (Hf1 : firstn (S (length es)) es' = es ++ [EExpress nm cbp dig life]).
+  { unfold es'. rewrite firstn_app, firstn_all2 by lia. replace (S (length es) - length es) with 1 by lia. reflexivity. }
+  split.
+  - unfold obs_at. rewrite (hist_nth es' _ _ Hk0), Hf0. fold s. cbn [step snd]. rewrite Hex. reflexivity.
+  - (* the history up to and including the Express: the new Interest is pending, hence expressed and not yet called back *)
+    destruct (model_accepted_rel (es ++ [EExpress nm cbp dig life])) as (sp1 & Hrun1 & _).
+    pose proof (acc_binv _ _ Hrun1) as B. rewrite hist_map_fst in B.
+    assert (Hp : In i (sp_pending sp1)).
+    { rewrite hist_app in Hrun1. rewrite spec_run_app, Hrun0 in Hrun1. cbn [hist spec_run] in Hrun1. fold s in Hrun1.
+      cbn [step] in Hrun1. rewrite Hex in Hrun1. cbn [snd sev_of] in Hrun1.
+      unfold spec_step in Hrun1. cbn [has_panic existsb orb] in Hrun1. rewrite Hne in Hrun1.
+      rewrite (r_npid _ _ R0) in Hrun1. unfold obs_is in Hrun1. rewrite Nat.eqb_refl in Hrun1.
+      inversion Hrun1. subst sp1. cbn [sp_pending]. apply in_or_app. right. left.
+      unfold i. rewrite (r_now _ _ R0). reflexivity. }
+    apply (b_pend _ _ _ B) in Hp. destruct Hp as (HiX & Hns).
+    change (npid s) with (s_pid i).
+    apply (m_data_resolves_all es' (S (length es)) dn dd i Hk1); rewrite ?Hf1; assumption.
+Qed.
